@@ -11,15 +11,17 @@
 
    What the transpiler does (_parse_function, _parse_simple_lines):
      * the body is parsed ONCE, at the def, in a copy of the environment of that moment where every name the script
-       writes at more than one site is unknown (ctx["_rebound_names"]); inside a function body nothing is volatile;
+       writes at more than one site is unknown (ctx["_rebound_names"]); a call-free body has nothing volatile;
      * from the def on the names the body writes (ctx["_function_written"], [vol]) are unknown in the calling scope, and
        the calling scope forgets them again after EVERY assignment statement - plain, augmented, each target of a tuple
        assignment (the parameter [vol] of ConstEnv.tstep) - so that no statement form re-tracks such a name: it is a
        run-time value at every fold site (len, flash_pattern, glyph rows), whatever call came in between;
      * a call leaves the constant environment alone.
-   [in_fn = true] is the same calling sequence inside ANOTHER function's body (scope = "function"): there the transpiler
-   does not re-forget (`if scope != "function"`), the calling body is parsed with vol = [] - a name the callee writes,
-   re-assigned by the caller, is folded after the call with the value from before it (C03_call_in_function_refuted).
+   [in_fn = true] is the same calling sequence inside ANOTHER function's body (scope = "function").  Since the repair of
+   F-C03-stale-after-call-in-function the calling body is treated like the module level: the names written by the
+   functions it calls (ctx["_callee_written"] = _callee_written_names(block): here [vol]) are forgotten when its parsing
+   starts - on top of the copy of the def-time module environment without the rebound names - and again after every
+   assignment statement.  The two scopes differ only in the environment the calling sequence starts from.
    No proofs in this file. *)
 From Coq Require Import ZArith QArith List Bool.
 From RV Require Import Base.Wire Base.Text Lang.PyAst Lang.PySem Gen.SafeCasts Lang.ConstEval Lang.ConstEnv Lang.ConstFlow.
@@ -59,11 +61,10 @@ Definition tcalls (in_fn : bool) (prefix body first : list stmt) (rest : list (l
       let vol := writes_block body in
       match tblock [] body (forget rb0 te) st with
       | Some (_, _, rb, fb) =>
-          let cvol := if in_fn then [] else vol in
-          let te0 := if in_fn then forget rb0 (forget vol te) else forget vol te in
-          match tblock cvol first te0 st with
+          let te0 := if in_fn then forget vol (forget rb0 (forget vol te)) else forget vol te in
+          match tblock vol first te0 st with
           | Some (te1, st1, rf, ff) =>
-              match tsegs cvol rest te1 st1 with
+              match tsegs vol rest te1 st1 with
               | Some (rs, fs) => Some (rp, rb, rf, rs, fp && fb && ff && fs)
               | None => None end
           | None => None end
@@ -78,8 +79,8 @@ Definition firmware_calls_outputs (in_fn : bool) (prefix body first : list stmt)
   | Some (rp, rb, rf, rs, _) =>
       match rblock (rp ++ rf ++ calls_inline rb rs) orc [] with Some (_, out, _) => Some out | None => None end
   | None => None end.
-Definition calls_ok (prefix body first : list stmt) (rest : list (list stmt)) : bool :=
-  match tcalls false prefix body first rest with Some (_, _, _, _, f) => f | None => false end.
+Definition calls_ok (in_fn : bool) (prefix body first : list stmt) (rest : list (list stmt)) : bool :=
+  match tcalls in_fn prefix body first rest with Some (_, _, _, _, f) => f | None => false end.
 
 (* the invariant of the calling scope: nothing the callee writes is known *)
 Definition vol_unknown (vol : list ident) (te : tenv) : Prop := forall x, In x vol -> known x te = false.
